@@ -392,15 +392,6 @@ def run(tier, seed):
                                   replay={"instance": inst.label, "family": inst.family, "history": h[:k + 1], "step": k + 1, "clause": clause,
                                           "source": full(srcc), "result": full(dstc), "newp": e["newp"], "qp_equal": e["eq"]}))
     # ---- (E) exact semantics of the reproduced table operators, decided by TLC
-    sem_neg = []
-    for k in range(0, len(sem_cases), max(1, len(sem_cases) // 12)):
-        c = sem_cases[k]
-        if c["a"][0]["p"]:
-            bad = {"n": c["n"], "a": [dict(c["a"][0])], "bs": [{"b": [dict(c["a"][0], p=[(c["a"][0]["p"][0] + 1) % 16] + c["a"][0]["p"][1:])], "rel": "exact"}]}
-            sem_neg.append(len(sem_cases) + len(sem_neg))
-            sem_meta.append(None)
-    for k, idx in enumerate(list(sem_neg)):
-        pass
     neg_cases = []
     for k in range(0, len(sem_cases), max(1, len(sem_cases) // 12)):
         c = sem_cases[k]
